@@ -5,7 +5,8 @@ def suites : List (String × Suite) := [
   ("c03", Tally.Drv.C03.suite),
   ("c06", Tally.Drv.C06.suite),
   ("c01", Tally.Drv.C01.suite),
-  ("c02", Tally.Drv.C02.suite)
+  ("c02", Tally.Drv.C02.suite),
+  ("scope", Tally.Drv.Scope.suite)
 ]
 
 partial def loop (inp : IO.FS.Stream) (out : IO.FS.Stream) (s : Suite) (st : s.σ) : IO Unit := do
